@@ -53,6 +53,24 @@ ValsFor(type, format) ==
     [] type = "string" /\ ~IsFormat(format) -> { LenVal(<<50>>, <<51>>) } \cup (IF Thorough THEN { EnumVal(<<<<97, 98>>, <<97, 98, 99>>>>) } ELSE {})
     [] OTHER -> {}
 
+\* declared defaults: a good literal; zero-valued defaults (0, 0.0, false, "", the empty list: a default that "is zero" is still a
+\* default); magnitudes at which a float64 prints in exponent notation (>= 10^6, < 10^-4), also negative
+ZeroTexts(et, ef) ==
+  CASE et = "integer" -> {<<48>>}
+    [] et = "number"  -> {<<48>>} \cup (IF Thorough THEN {<<48, 46, 48>>} ELSE {})
+    [] et = "boolean" -> {W_false}
+    [] et = "string" /\ ~IsFormat(ef) -> {<<>>}
+    [] OTHER -> {}
+BigTexts(et, ef) ==
+  CASE et = "integer" /\ Bits(ef) >= 32 -> {<<49, 48, 48, 48, 48, 48, 48>>} \cup (IF Thorough THEN {<<45, 49, 48, 48, 48, 48, 48, 48>>} ELSE {})
+    [] et = "number"  -> {<<48, 46, 48, 48, 48, 48, 49>>} \cup (IF Thorough THEN {<<49, 48, 48, 48, 48, 48, 48>>} ELSE {})
+    [] OTHER -> {}
+DefChoices(et, ef, isArray, noVal) ==
+  LET g == GoodText(et, ef) IN
+  IF isArray
+  THEN {<<g, g>>} \cup (IF noVal THEN {<<>>} \cup { <<z>> : z \in ZeroTexts(et, ef) } \cup { <<b, g>> : b \in BigTexts(et, ef) } ELSE {})
+  ELSE {<<g>>} \cup (IF noVal THEN { <<z>> : z \in ZeroTexts(et, ef) \cup BigTexts(et, ef) } ELSE {})
+
 BaseDecl == [in |-> "query", enc |-> "", name |-> NameLim, type |-> "string", format |-> "", itype |-> "", iformat |-> "", cf |-> "",
              required |-> FALSE, hasdef |-> FALSE, def |-> <<>>, allowEmpty |-> FALSE, val |-> NoVal]
 
@@ -88,10 +106,8 @@ ChooseFlags ==
           IN \E vd \in vals :
                \* a declared default satisfies the declared validation (else the declaration is not legal)
                /\ hd => (vd.k \in {"none"} \/ (vd.k = "enum" /\ d.type # "array") \/ (vd.k = "range" /\ d.type # "array" /\ ~vd.emin))
-               /\ d' = [d EXCEPT !.required = rq, !.hasdef = hd, !.allowEmpty = ae, !.val = vd,
-                                 !.def = IF ~hd THEN <<>>
-                                         ELSE IF d.type = "array" THEN <<GoodText(et, ef), GoodText(et, ef)>>
-                                         ELSE <<GoodText(et, ef)>>]
+               /\ \E df \in (IF ~hd THEN {<<>>} ELSE DefChoices(et, ef, d.type = "array", vd.k = "none")) :
+                    d' = [d EXCEPT !.required = rq, !.hasdef = hd, !.allowEmpty = ae, !.val = vd, !.def = df]
   /\ phase' = "req" /\ UNCHANGED req
 
 TextsFor(type, format) ==
